@@ -1067,7 +1067,7 @@ class Terminal:
         if write:
             offset = self.pdo_out_off
             size = self.pdo_out_sz
-            start = 1
+            start = min(2, len(self.fmmu_used))
         else:
             offset = self.pdo_in_off
             size = self.pdo_in_sz
@@ -1075,7 +1075,7 @@ class Terminal:
         assert size is not None
         assert offset is not None
 
-        index = start - self.fmmu_used[start::-1].index(None) - 1
+        index = start - self.fmmu_used[:start][::-1].index(None) - 1
 
         self.fmmu_used[index] = logical
         try:
